@@ -147,6 +147,40 @@ def parse_frame(f: bytes):
     return p
 
 
+def norm_frame(f: bytes):
+    """An emitted frame reduced to what the properties determine: MACs, EtherType, addresses, protocol, length fields,
+    fragment bits, ports, seq / ack / flags / data offset, payload, ICMP type / code / rest; TTL, hop limit and TCP
+    window only as the predicates the properties state (>= 1, == 255, != 0); every checksum only as 'valid'. Fields no
+    property mentions (TOS, IPv4 identification, traffic class, flow label, urgent pointer) are dropped. Used wherever
+    two whole frames are compared, so that a change of an unconstrained field does not break a correspondence."""
+    p = parse_frame(f)
+    if p is None:
+        return ("raw", f)
+    t = (p.mac_dst, p.mac_src, p.ety)
+    if p.ety == 0x0806:
+        return t + ("arp", p.arp)
+    if p.ipver == 4:
+        hdr = p.l3[:p.ihl * 4]
+        t += (4, p.ihl, p.total, p.l3[6:8], p.ttl >= 1, p.proto, p.ip_src, p.ip_dst, csum(hdr) == 0)
+        ps = lambda ln: pseudo(p.ip_src, p.ip_dst, p.proto, ln)
+    elif p.ipver == 6:
+        t += (6, p.plen, p.proto, p.hlim >= 1, p.hlim == 255, p.ip_src, p.ip_dst)
+        ps = lambda ln: pseudo(p.ip_src, p.ip_dst, p.proto, ln)
+    else:
+        return t + ("l3", p.l3)
+    l4 = p.l4
+    if p.proto == 6 and p.app is not None:
+        return t + ("tcp", p.sport, p.dport, p.seq, p.ack, p.doff, p.flags, p.win != 0, csum(ps(len(l4)) + l4) == 0, bytes(p.app))
+    if p.proto == 17 and p.app is not None:
+        ok = (p.cks == 0 and p.ipver == 4) or csum(ps(len(l4)) + l4) == 0
+        return t + ("udp", p.sport, p.dport, p.ulen, p.cks != 0, ok, bytes(p.app))
+    if p.proto == 1 and l4 is not None and len(l4) >= 4:
+        return t + ("icmp4", l4[0], l4[1], csum(l4) == 0, l4[4:])
+    if p.proto == 58 and l4 is not None and len(l4) >= 4:
+        return t + ("icmp6", l4[0], l4[1], csum(ps(len(l4)) + l4) == 0, l4[4:])
+    return t + ("l4", l4)
+
+
 # ---------- SipHash-2-4 / SYN cookie (independent Python implementation) ----------
 def _rotl(x, b):
     return ((x << b) | (x >> (64 - b))) & 0xFFFFFFFFFFFFFFFF
